@@ -27,15 +27,18 @@ def dfSCases : Src.Cases → List String
   | .cons _ _ body r => dfSStmts body ++ dfSCases r
 end
 
-/-- the table `R` made from `b`: grown, and the nodes of the labels `ds` are set -/
-def TrGood (cx : Cx) (env : Src.Env) (R b : Src.B) (ds : List String) : Prop :=
-  Grow cx.Z b R ∧
-  (cx.Z ≤ (tbl b).length → ∀ n ∈ ds, ∀ i, env.labels.lookup n = some i → ∃ kn, (tbl R)[i]? = some (.silent kn))
+/-- the label nodes of the environment are in the label zone -/
+def Dense (Z : Nat → Prop) (env : Src.Env) : Prop := ∀ n i, env.labels.lookup n = some i → Z i
 
-theorem TrGood.nil {cx : Cx} {env : Src.Env} {R b : Src.B} (h : Grow cx.Z b R) : TrGood cx env R b [] :=
+/-- the table `R` made from `b`: grown, and the nodes of the labels `ds` are set -/
+def TrGood (Z : Nat → Prop) (env : Src.Env) (R b : Src.B) (ds : List String) : Prop :=
+  Grow Z b R ∧
+  ((∀ i, Z i → i < (tbl b).length) → ∀ n ∈ ds, ∀ i, env.labels.lookup n = some i → ∃ kn, (tbl R)[i]? = some (.silent kn))
+
+theorem TrGood.nil {Z : Nat → Prop} {env : Src.Env} {R b : Src.B} (h : Grow Z b R) : TrGood Z env R b [] :=
   ⟨h, fun _ n hn => by simp at hn⟩
 
-theorem Grow.keeps_silent {Z : Nat} {b b' : Src.B} (h : Grow Z b b') {i k : Nat} (hi : (tbl b)[i]? = some (.silent k)) :
+theorem Grow.keeps_silent {Z : Nat → Prop} {b b' : Src.B} (h : Grow Z b b') {i k : Nat} (hi : (tbl b)[i]? = some (.silent k)) :
     ∃ k', (tbl b')[i]? = some (.silent k') := by
   have hlt : i < (tbl b).length := by
     rcases Nat.lt_or_ge i (tbl b).length with h' | h'
@@ -46,31 +49,31 @@ theorem Grow.keeps_silent {Z : Nat} {b b' : Src.B} (h : Grow Z b b') {i k : Nat}
   · exact ⟨k', e⟩
 
 /-- two translations one after the other -/
-theorem TrGood.seq {cx : Cx} {env : Src.Env} {b R1 R2 : Src.B} {d1 d2 d : List String} (h1 : TrGood cx env R1 b d1)
-    (h2 : TrGood cx env R2 R1 d2) (hd : ∀ n, n ∈ d → n ∈ d1 ∨ n ∈ d2) : TrGood cx env R2 b d := by
+theorem TrGood.seq {Z : Nat → Prop} {env : Src.Env} {b R1 R2 : Src.B} {d1 d2 d : List String} (h1 : TrGood Z env R1 b d1)
+    (h2 : TrGood Z env R2 R1 d2) (hd : ∀ n, n ∈ d → n ∈ d1 ∨ n ∈ d2) : TrGood Z env R2 b d := by
   refine ⟨h1.1.trans h2.1, fun hz n hn i hl => ?_⟩
   rcases hd n hn with h | h
   · obtain ⟨kn, e⟩ := h1.2 hz n h i hl
     exact h2.1.keeps_silent e
-  · exact h2.2 (Nat.le_trans hz h1.1.len) n h i hl
+  · exact h2.2 (fun i' hz' => Nat.lt_of_lt_of_le (hz i' hz') h1.1.len) n h i hl
 
-theorem TrGood.after {cx : Cx} {env : Src.Env} {b R R' : Src.B} {d : List String} (h : TrGood cx env R b d) (hg : Grow cx.Z R R') :
-    TrGood cx env R' b d :=
+theorem TrGood.after {Z : Nat → Prop} {env : Src.Env} {b R R' : Src.B} {d : List String} (h : TrGood Z env R b d) (hg : Grow Z R R') :
+    TrGood Z env R' b d :=
   TrGood.seq h (TrGood.nil hg) (fun _ hn => .inl hn)
 
-theorem TrGood.before {cx : Cx} {env : Src.Env} {b b1 R : Src.B} {d : List String} (hg : Grow cx.Z b b1) (h : TrGood cx env R b1 d) :
-    TrGood cx env R b d :=
+theorem TrGood.before {Z : Nat → Prop} {env : Src.Env} {b b1 R : Src.B} {d : List String} (hg : Grow Z b b1) (h : TrGood Z env R b1 d) :
+    TrGood Z env R b d :=
   TrGood.seq (TrGood.nil hg) h (fun _ hn => .inr hn)
 
-theorem TrGood.sub {cx : Cx} {env : Src.Env} {b R : Src.B} {d d' : List String} (h : TrGood cx env R b d) (hd : ∀ n, n ∈ d' → n ∈ d) :
-    TrGood cx env R b d' := ⟨h.1, fun hz n hn => h.2 hz n (hd n hn)⟩
+theorem TrGood.sub {Z : Nat → Prop} {env : Src.Env} {b R : Src.B} {d d' : List String} (h : TrGood Z env R b d) (hd : ∀ n, n ∈ d' → n ∈ d) :
+    TrGood Z env R b d' := ⟨h.1, fun hz n hn => h.2 hz n (hd n hn)⟩
 
 /-- overwriting a node that is not below `b` (a loop head, the switch's no-test-taken node) -/
-theorem TrGood.set_ge {cx : Cx} {env : Src.Env} (he : EnvOK cx env) {b R : Src.B} {d : List String} (h : TrGood cx env R b d) {i : Nat}
-    (hi : (tbl b).length ≤ i) (n : Src.Node) : TrGood cx env (R.set i n) b d := by
+theorem TrGood.set_ge {Z : Nat → Prop} {env : Src.Env} (hd : Dense Z env) {b R : Src.B} {d : List String} (h : TrGood Z env R b d) {i : Nat}
+    (hi : (tbl b).length ≤ i) (n : Src.Node) : TrGood Z env (R.set i n) b d := by
   refine ⟨h.1.set_ge hi n, fun hz m hm j hl => ?_⟩
   obtain ⟨kn, e⟩ := h.2 hz m hm j hl
-  have hj := he.3 m j hl
+  have hj := hz j (hd m j hl)
   exact ⟨kn, by rw [tbl_set, List.getElem?_set_ne (by omega)]; exact e⟩
 
 theorem testChain_pushes (sb : List (String × Beh.Param)) : ∀ (ts : List Ev) (x y : Nat) (b : Src.B), Pushes b (Src.testChain sb ts x y b).1
@@ -101,130 +104,131 @@ theorem afterCtxSpecial_pushes (env : Src.Env) (s : Src.Stmt) (k : Nat) (b : Src
   | _ => simp [Src.afterCtxSpecial] at h
 
 section good
-variable (cx : Cx) (fuel : Nat)
+variable (Z : Nat → Prop) (fuel : Nat) (sm : List Src.Macro)
+  (hM : ∀ (env : Src.Env) (name : String) (args : List Beh.Param) (k : Nat) (b : Src.B), Dense Z env →
+    Grow Z b (Src.tr fuel sm env (.macroCall name args) k b).1)
+include hM
 
 mutual
-theorem tr_good : ∀ (S : Src.Stmt) (env : Src.Env), EnvOK cx env → ∀ k b, TrGood cx env (Src.tr fuel [] env S k b).1 b (dfS S)
-  | .op name ps, env, he, k, b => by
+theorem tr_good : ∀ (S : Src.Stmt) (env : Src.Env), Dense Z env → ∀ k b, TrGood Z env (Src.tr fuel sm env S k b).1 b (dfS S)
+  | .op name ps, env, hd, k, b => by
     rw [Src.tr]; simp only [dfS]
     split <;> exact TrGood.nil (Grow.push _ _)
-  | .ctx c cps inner, env, he, k, b => by
+  | .ctx c cps inner, env, hd, k, b => by
     rw [Src.tr]; simp only [dfS]
     cases hs : Src.afterCtxSpecial env inner k b with
     | some r => exact TrGood.nil ((afterCtxSpecial_pushes env inner k b r hs).grow.trans (Grow.push _ _))
-    | none => exact TrGood.nil ((tr_good inner env he k b).1.trans (Grow.push _ _))
-  | .label n, env, he, k, b => by
+    | none => exact TrGood.nil ((tr_good inner env hd k b).1.trans (Grow.push _ _))
+  | .label n, env, hd, k, b => by
     rw [Src.tr]; simp only [dfS]
     cases hl : env.labels.lookup n with
     | none => exact ⟨Grow.push _ _, fun _ m hm i hi => by simp at hm; subst hm; rw [hl] at hi; cases hi⟩
     | some i =>
-      refine ⟨Grow.set_lab b (he.3 n i hl) k, fun hz m hm j hj => ?_⟩
+      refine ⟨Grow.set_lab b (hd n i hl) k, fun hz m hm j hj => ?_⟩
       simp at hm; subst hm
       rw [hl] at hj; cases hj
-      exact ⟨k, by rw [tbl_set, List.getElem?_set_self (by have := he.3 m i hl; omega)]⟩
-  | .jump n, env, he, k, b => by
+      exact ⟨k, by rw [tbl_set, List.getElem?_set_self (hz i (hd m i hl))]⟩
+  | .jump n, env, hd, k, b => by
     rw [Src.tr]; exact TrGood.nil (lookupLabel_pushes env b n).grow
-  | .call n, env, he, k, b => by
+  | .call n, env, hd, k, b => by
     rw [Src.tr]; exact TrGood.nil ((lookupLabel_pushes env b n).grow.trans (Grow.push _ _))
-  | .ret, env, he, k, b => by
+  | .ret, env, hd, k, b => by
     rw [Src.tr]; simp only [dfS]
     cases env.ret with
     | some r => exact TrGood.nil (Grow.refl b)
     | none => exact TrGood.nil (Grow.push _ _)
-  | .end_, env, he, k, b => by rw [Src.tr]; exact TrGood.nil (Grow.push _ _)
-  | .hold, env, he, k, b => by rw [Src.tr]; exact TrGood.nil (Grow.push _ _)
-  | .brk, env, he, k, b => by
+  | .end_, env, hd, k, b => by rw [Src.tr]; exact TrGood.nil (Grow.push _ _)
+  | .hold, env, hd, k, b => by rw [Src.tr]; exact TrGood.nil (Grow.push _ _)
+  | .brk, env, hd, k, b => by
     rw [Src.tr]; simp only [dfS]
     cases env.brk with
     | some r => exact TrGood.nil (Grow.refl b)
     | none => exact TrGood.nil (invalid_pushes _ _).grow
-  | .cont, env, he, k, b => by
+  | .cont, env, hd, k, b => by
     rw [Src.tr]; simp only [dfS]
     cases env.cont with
     | some r => exact TrGood.nil (Grow.refl b)
     | none => exact TrGood.nil (invalid_pushes _ _).grow
-  | .brkLoop, env, he, k, b => by
+  | .brkLoop, env, hd, k, b => by
     rw [Src.tr]; simp only [dfS]
     cases env.brkLoop with
     | some r => exact TrGood.nil (Grow.refl b)
     | none => exact TrGood.nil (invalid_pushes _ _).grow
-  | .ite bs hasElse els, env, he, k, b => by
+  | .ite bs hasElse els, env, hd, k, b => by
     rw [Src.tr]; simp only [dfS]
     cases hasElse with
     | true =>
       simp only [↓reduceIte]
-      exact TrGood.seq (trStmts_good els env he k b) (trBranches_good bs env he k _ _) (fun n hn => by
+      exact TrGood.seq (trStmts_good els env hd k b) (trBranches_good bs env hd k _ _) (fun n hn => by
         simp only [List.mem_append] at hn; exact hn.symm)
     | false =>
       simp only [Bool.false_eq_true, ↓reduceIte, List.append_nil]
-      exact trBranches_good bs env he k k b
-  | .switch hdr cs, env, he, k, b => by
-    rw [tr_switch fuel env he hdr cs k b]; simp only [dfS]
-    have hT := trCases_good cs (brkEnv env k) (plainEnv_brkEnv he k) k (tbl b).length (b.push (.halt (evInvalid "switch default"))).1
-    have h1 : TrGood cx env (Src.trCases fuel [] (brkEnv env k) cs k (tbl b).length (b.push (.halt (evInvalid "switch default"))).1).1 b
+      exact trBranches_good bs env hd k k b
+  | .switch hdr cs, env, hd, k, b => by
+    rw [tr_switch fuel sm env hdr cs k b]; simp only [dfS]
+    have hT := trCases_good cs (brkEnv env k) hd k (tbl b).length (b.push (.halt (evInvalid "switch default"))).1
+    have h1 : TrGood Z env (Src.trCases fuel sm (brkEnv env k) cs k (tbl b).length (b.push (.halt (evInvalid "switch default"))).1).1 b
         (dfSCases cs) := TrGood.before (Grow.push _ _) ⟨hT.1, hT.2⟩
-    exact (h1.set_ge he (Nat.le_refl _) _).after (Grow.push _ _)
-  | .forever body, env, he, k, b => by
+    exact (h1.set_ge hd (Nat.le_refl _) _).after (Grow.push _ _)
+  | .forever body, env, hd, k, b => by
     rw [tr_forever]; simp only [dfS]
-    have hB := trStmts_good body (loopEnv env (tbl b).length k) (plainEnv_loopEnv he _ _) (tbl b).length (b.push (.halt (evInvalid "loop head"))).1
-    have h1 : TrGood cx env _ b (dfSStmts body) := TrGood.before (Grow.push _ _) ⟨hB.1, hB.2⟩
-    exact h1.set_ge he (Nat.le_refl _) _
-  | .while_ neg t body, env, he, k, b => by
-    rw [tr_while fuel env he]; simp only [dfS]
-    have hB := trStmts_good body (loopEnv env (tbl b).length k) (plainEnv_loopEnv he _ _) (tbl b).length (b.push (.halt (evInvalid "loop head"))).1
-    have h1 : TrGood cx env _ b (dfSStmts body) := TrGood.before (Grow.push _ _) ⟨hB.1, hB.2⟩
-    exact h1.set_ge he (Nat.le_refl _) _
-  | .for_ init t inc body, env, he, k, b => by
-    rw [tr_for fuel env he]; simp only [dfS]
-    have hI := tr_good inc env he (tbl b).length (b.push (.halt (evInvalid "loop test"))).1
-    have hB := trStmts_good body (loopEnv env (Src.tr fuel [] env inc (tbl b).length (b.push (.halt (evInvalid "loop test"))).1).2 k)
-      (plainEnv_loopEnv he _ _) (Src.tr fuel [] env inc (tbl b).length (b.push (.halt (evInvalid "loop test"))).1).2
-      (Src.tr fuel [] env inc (tbl b).length (b.push (.halt (evInvalid "loop test"))).1).1
-    have h1 : TrGood cx env _ b (dfS inc ++ dfSStmts body) :=
+    have hB := trStmts_good body (loopEnv env (tbl b).length k) hd (tbl b).length (b.push (.halt (evInvalid "loop head"))).1
+    have h1 : TrGood Z env _ b (dfSStmts body) := TrGood.before (Grow.push _ _) ⟨hB.1, hB.2⟩
+    exact h1.set_ge hd (Nat.le_refl _) _
+  | .while_ neg t body, env, hd, k, b => by
+    rw [tr_while fuel sm env]; simp only [dfS]
+    have hB := trStmts_good body (loopEnv env (tbl b).length k) hd (tbl b).length (b.push (.halt (evInvalid "loop head"))).1
+    have h1 : TrGood Z env _ b (dfSStmts body) := TrGood.before (Grow.push _ _) ⟨hB.1, hB.2⟩
+    exact h1.set_ge hd (Nat.le_refl _) _
+  | .for_ init t inc body, env, hd, k, b => by
+    rw [tr_for fuel sm env]; simp only [dfS]
+    have hI := tr_good inc env hd (tbl b).length (b.push (.halt (evInvalid "loop test"))).1
+    have hB := trStmts_good body (loopEnv env (Src.tr fuel sm env inc (tbl b).length (b.push (.halt (evInvalid "loop test"))).1).2 k)
+      hd (Src.tr fuel sm env inc (tbl b).length (b.push (.halt (evInvalid "loop test"))).1).2
+      (Src.tr fuel sm env inc (tbl b).length (b.push (.halt (evInvalid "loop test"))).1).1
+    have h1 : TrGood Z env _ b (dfS inc ++ dfSStmts body) :=
       TrGood.before (Grow.push _ _) (TrGood.seq hI ⟨hB.1, hB.2⟩ (fun n hn => by simpa using hn))
-    have h2 := h1.set_ge he (Nat.le_refl _) (.test t (Src.trStmts fuel [] (loopEnv env (Src.tr fuel [] env inc (tbl b).length
-      (b.push (.halt (evInvalid "loop test"))).1).2 k) body (Src.tr fuel [] env inc (tbl b).length (b.push (.halt (evInvalid "loop test"))).1).2
-      (Src.tr fuel [] env inc (tbl b).length (b.push (.halt (evInvalid "loop test"))).1).1).2 k)
-    exact TrGood.seq h2 (tr_good init env he _ _) (fun n hn => by
+    have h2 := h1.set_ge hd (Nat.le_refl _) (.test (Src.substEv env.subst t) (Src.trStmts fuel sm (loopEnv env (Src.tr fuel sm env inc (tbl b).length
+      (b.push (.halt (evInvalid "loop test"))).1).2 k) body (Src.tr fuel sm env inc (tbl b).length (b.push (.halt (evInvalid "loop test"))).1).2
+      (Src.tr fuel sm env inc (tbl b).length (b.push (.halt (evInvalid "loop test"))).1).1).2 k)
+    exact TrGood.seq h2 (tr_good init env hd _ _) (fun n hn => by
       simp only [List.mem_append] at hn ⊢
       rcases hn with (h | h) | h
       · exact .inr h
       · exact .inl (.inl h)
       · exact .inl (.inr h))
-  | .macroCall name args, env, he, k, b => by
+  | .macroCall name args, env, hd, k, b => by
     simp only [dfS]
-    cases fuel with
-    | zero => rw [Src.tr]; exact TrGood.nil (invalid_pushes _ _).grow
-    | succ f => rw [Src.tr]; exact TrGood.nil (invalid_pushes _ _).grow
+    exact TrGood.nil (hM env name args k b hd)
 
-theorem trStmts_good : ∀ (S : Src.Stmts) (env : Src.Env), EnvOK cx env → ∀ k b, TrGood cx env (Src.trStmts fuel [] env S k b).1 b (dfSStmts S)
-  | .nil, env, he, k, b => by rw [Src.trStmts]; exact TrGood.nil (Grow.refl b)
-  | .cons s r, env, he, k, b => by
+theorem trStmts_good : ∀ (S : Src.Stmts) (env : Src.Env), Dense Z env → ∀ k b, TrGood Z env (Src.trStmts fuel sm env S k b).1 b (dfSStmts S)
+  | .nil, env, hd, k, b => by rw [Src.trStmts]; exact TrGood.nil (Grow.refl b)
+  | .cons s r, env, hd, k, b => by
     rw [Src.trStmts]; simp only [dfSStmts]
-    exact TrGood.seq (trStmts_good r env he k b) (tr_good s env he _ _) (fun n hn => by
+    exact TrGood.seq (trStmts_good r env hd k b) (tr_good s env hd _ _) (fun n hn => by
       simp only [List.mem_append] at hn; exact hn.symm)
 
-theorem trBranches_good : ∀ (S : Src.Branches) (env : Src.Env), EnvOK cx env → ∀ k e b,
-    TrGood cx env (Src.trBranches fuel [] env S k e b).1 b (dfSBranches S)
-  | .nil, env, he, k, e, b => by rw [Src.trBranches]; exact TrGood.nil (Grow.refl b)
-  | .cons neg tests body r, env, he, k, e, b => by
+theorem trBranches_good : ∀ (S : Src.Branches) (env : Src.Env), Dense Z env → ∀ k e b,
+    TrGood Z env (Src.trBranches fuel sm env S k e b).1 b (dfSBranches S)
+  | .nil, env, hd, k, e, b => by rw [Src.trBranches]; exact TrGood.nil (Grow.refl b)
+  | .cons neg tests body r, env, hd, k, e, b => by
     rw [Src.trBranches]; simp only [dfSBranches]
-    have h1 := TrGood.seq (trBranches_good r env he k e b) (trStmts_good body env he k _) (fun n hn => by
+    have h1 := TrGood.seq (trBranches_good r env hd k e b) (trStmts_good body env hd k _) (fun n hn => by
       simp only [List.mem_append] at hn; exact hn.symm) (d := dfSStmts body ++ dfSBranches r)
     split
     · exact h1.after (testChain_pushes _ _ _ _ _).grow
     · exact h1.after (testChain_pushes _ _ _ _ _).grow
 
-theorem trCases_good : ∀ (S : Src.Cases) (env : Src.Env), EnvOK cx env → ∀ k nt b,
-    TrGood cx env (Src.trCases fuel [] env S k nt b).1 b (dfSCases S)
-  | .nil, env, he, k, nt, b => by rw [trCases_nil]; exact TrGood.nil (Grow.refl b)
-  | .cons true t body r, env, he, k, nt, b => by
-    rw [trCases_default fuel env t body r k nt b rfl rfl]; simp only [dfSCases]
-    exact TrGood.seq (trCases_good r env he k nt b) (trStmts_good body env he _ _) (fun n hn => by
+theorem trCases_good : ∀ (S : Src.Cases) (env : Src.Env), Dense Z env → ∀ k nt b,
+    TrGood Z env (Src.trCases fuel sm env S k nt b).1 b (dfSCases S)
+  | .nil, env, hd, k, nt, b => by rw [trCases_nil]; exact TrGood.nil (Grow.refl b)
+  | .cons true t body r, env, hd, k, nt, b => by
+    rw [trCases_default fuel sm env t body r k nt b rfl rfl]; simp only [dfSCases]
+    exact TrGood.seq (trCases_good r env hd k nt b) (trStmts_good body env hd _ _) (fun n hn => by
       simp only [List.mem_append] at hn; exact hn.symm)
-  | .cons false t body r, env, he, k, nt, b => by
-    rw [trCases_case fuel env he.1 t body r k nt b rfl rfl]; simp only [dfSCases]
-    exact (TrGood.seq (trCases_good r env he k nt b) (trStmts_good body env he _ _) (fun n hn => by
+  | .cons false t body r, env, hd, k, nt, b => by
+    rw [trCases_case fuel sm env t body r k nt b rfl rfl]; simp only [dfSCases]
+    exact (TrGood.seq (trCases_good r env hd k nt b) (trStmts_good body env hd _ _) (fun n hn => by
       simp only [List.mem_append] at hn; exact hn.symm) (d := dfSStmts body ++ dfSCases r)).after (Grow.push _ _)
 end
 
